@@ -29,7 +29,7 @@ def shards(tier):
 
 
 def required_classes(tier):
-    out = ["near-power-of-two-prime", "typed-variants", "soak:distinct-inverses", "derived-configurations", "hash-colliding-operands", "interleaved-configurations", "W4:GF(p)", "W4:GF(p^2)", "W4:GF(2^12)", "int-operand", "div-by-zero", "pow:>=750bit", "laws"]
+    out = ["threads:field-arithmetic", "near-power-of-two-prime", "typed-variants", "soak:distinct-inverses", "derived-configurations", "hash-colliding-operands", "interleaved-configurations", "W4:GF(p)", "W4:GF(p^2)", "W4:GF(2^12)", "int-operand", "div-by-zero", "pow:>=750bit", "laws"]
     for impl in ("ref", "opt"):
         for d in (1, 2, 12):
             out.append("real:%s:deg%d" % (impl, d))
@@ -216,6 +216,10 @@ def run(rec):
     derived_configurations(rec, rng, quick)
     typed_variants(rec, rng, quick)
     near_power_of_two_primes(rec, rng, quick)
+    if rec.shard in (2, 9) or not quick:
+        threads_phase(rec)
+    else:
+        rec.case("threads:field-arithmetic", None, nontrivial=False)
     if rec.shard == 5 or not quick:
         from .common import soak_size, soak_then_reprobe
         import py_ecc.fields as pf
@@ -460,9 +464,28 @@ def interleaved_configurations(rec, rng, quick):
                 call(lambda: a * b + a)
 
 
+def threads_phase(rec):
+    """Field arithmetic of all concrete classes while other threads do field arithmetic of the same and of other classes."""
+    from .common import threaded_reprobe
+    rng = rec.rng
+    thunks = []
+    for key, (cls, F) in sorted(G.concrete_classes().items()):
+        impl, curve, deg = key
+        if deg == 1:
+            continue
+        x, y, z = (G.make(cls, tuple(rng.randrange(F.p) for _ in range(deg))) for _ in range(3))
+        nm = "%s.%s.FQ%d" % key
+        thunks.append((nm + ".mul-chain", lambda x=x, y=y, z=z: ((x * y) * z) * (y * y)))
+        thunks.append((nm + ".div", lambda x=x, y=y: x / y))
+        thunks.append((nm + ".pow", lambda x=x: x ** 0xF123456789ABCDEF0123456789))
+    threaded_reprobe(rec, "field-arithmetic", thunks, threads=4, rounds=3 if rec.tier == "quick" else 40)
+
+
 def replay(rec, case):
     import_all()
     fmon.install()
+    if case.get("fn") == "threads":
+        return threads_phase(rec)
     if case.get("fn") != "fieldop":
         return
     p, mc = case["p"], tuple(case["mc"])
